@@ -9,15 +9,18 @@
      in k item            item in top
      f arg n (k item)*n   list(top.filter(items, prereleases=arg))  -> positions and kinds of the returned objects
      str | len | pre | eq output str(top) | len(top) | top.prereleases | top-1 == top
+     eqs k text           top == "text" (k = s) | top == Specifier(text) (k = X); InvalidSpecifier escaping from == ends the run with !E
+   Override / argument tokens: T F N, and the non-bool values 1 0 (int) S E (non-empty / empty str), read by truthiness as the code does.
    Output: the outputs joined by ';'; a failing construction ends the run with !E (InvalidSpecifier) or !V (ValueError). *)
 From Coq Require Import List NArith Bool String.
 Import ListNotations.
-Require Import VParse Py SpecModel SpecContains SetsModel Show.
+Require Import VParse Py SpecModel SpecContains SetsModel SetsOps Show.
 Open Scope N_scope.
 
 
 Definition parse_tri (s : list N) : option bool :=
-  if seqb s [84] then Some true else if seqb s [70] then Some false else None.
+  if seqb s [84] || seqb s [49] || seqb s [83] then Some true
+  else if seqb s [70] || seqb s [48] || seqb s [69] then Some false else None.
 Definition show_tri (o : option bool) : list N := match o with Some true => [84] | Some false => [70] | None => [78] end.
 Definition show_outcome (o : outcome) : list N := match o with Ans b => show_bool b | BadItem => [69] | Escaped => [88] end.
 Definition show_nat (n : nat) : list N := show_N (N.of_nat n).
@@ -96,12 +99,20 @@ Fixpoint exec (fuel : nat) (stack : list obj) (args : list (list N)) (out : list
       else if seqb op (asc "&s") then
         match rest, stack with
         | t :: rest', OSet A :: st =>
-            match SpecifierSet t None with
+            match set_and_str A t with
+            | AndInvalid => bang_E :: out
+            | AndConflict => bang_V :: out
+            | AndOk C => exec fuel' (OSet C :: st) rest' out
+            end
+        | _, _ => bad_prog :: out
+        end
+      else if seqb op (asc "eqs") then
+        match rest, stack with
+        | k :: t :: rest', OSet A :: _ =>
+            let r := if seqb k (asc "X") then match Specifier t with Some sp => set_eq_spec A sp | None => None end else set_eq_str A t in
+            match r with
+            | Some b => exec fuel' stack rest' (show_bool b :: out)
             | None => bang_E :: out
-            | Some B => match set_and A B with
-                        | Some C => exec fuel' (OSet C :: st) rest' out
-                        | None => bang_V :: out
-                        end
             end
         | _, _ => bad_prog :: out
         end
